@@ -54,6 +54,8 @@ type Monitor struct {
 	anyFailure bool                // some user function returned an error or panicked earlier in this history
 	// swallowedOps: ops in which an optional parameter got the zero value although a provider is registered
 	swallowedOps map[int]bool
+	// mayOf: per Invoke op, the functions that can take part in its resolution
+	mayOf map[int]map[int]bool
 	role       map[int]interface{} // fn id -> *Reg | *Dec
 	okExecs    map[int]int
 	viol       []Violation
@@ -698,6 +700,10 @@ func (m *Monitor) beforeCall(i int, op *Op, f *Fn) {
 		start := node{f: f, s: op.Scope}
 		m.resetMemo()
 		st.may = m.mayInvoke(start)
+		if m.mayOf == nil {
+			m.mayOf = map[int]map[int]bool{}
+		}
+		m.mayOf[i] = m.may(start) // (unpruned: everything that can take part in this resolution)
 		st.av = m.availParams(start)
 		st.mustR, st.mustD = m.must(start)
 		st.cycReq = m.mustCycleFrom(start)
